@@ -6,7 +6,7 @@ from . import C11 as _c11
 ID = "C12"
 SUITES = ["table"]
 LEAN_MODULES = ["VpnCloud.Proofs.C12"]
-THEOREMS = []
+THEOREMS = ["VpnCloud.Proofs.C12." + n for n in ("setClaims_exact", "removeClaims_clears", "housekeep_spec", "lookup_result_mem", "removed_peer_unreachable", "claims_expire")]
 BATCH = 200
 SEARCH_BUDGET_S = 300
 RULE = ("suite table: announcement sequences of one peer over all subsets and orders of a 4-claim universe (grow, shrink, permute, "
